@@ -235,6 +235,24 @@ def c10(tier):
         cov['traces_validated_against_impl'] += cov2['traces_validated_against_impl']
         cov.setdefault('window_runs', []).append({'which': label, 'states': cov2['states'],
                                                   'replayed': cov2['behaviours_replayed']})
+    # anti-vacuity: with the repaired behaviour switched back (a stale temporary *directory* makes start_self fail) TLC must
+    # find the old counterexample
+    import os
+    import histories
+    pd = dict([p for p in programs.crash_family() if p['name'] == 'crash_outdir'][0], stale_tmpdir_bug=True)
+    dd = common.workdir('C10_%s_pinned' % tier)
+    r0, _ = histories.gen_histories(pd, dd, max_hist=3, max_cmds=3, invariants=['RecoversOk'], workers=4)
+    cov['pinned_counterexamples'] = [{'program': 'crash_outdir', 'switch': 'StaleTmpDirBug', 'expected': 'RecoversOk', 'found': r0.violated}]
+    if r0.violated != 'RecoversOk':
+        te.append('anti-vacuity: crash_outdir with StaleTmpDirBug should violate RecoversOk, TLC says %s' % (r0.violated or r0.error))
+    # (d) kills at system-call granularity (strace injection), oracle = the histories TLC exports without the kill
+    import killsweep
+    kcov, kte = killsweep.run_sweep('C10', tier, verdict, common.build_redo())
+    cov.update(kcov)
+    cov['states'] += kcov.get('syscall_sweep_states', 0)
+    cov['traces_validated_against_impl'] += kcov.get('syscall_kill_runs', 0)
+    te += kte
+    wall += kcov.get('syscall_sweep_wall_s', 0)
     return finish('C10', tier, verdict, cov, te, wall)
 
 
